@@ -316,22 +316,38 @@ func TestVF_C11(t *testing.T) {
 			t.Fatalf("%s", msg)
 		}
 		faults := []string{"silence_c2s", "silence_s2c", "silence_both", "client_write_error", "source_shrink", "source_remove"}
+		// source faults need files that outlast the sender's read-ahead (100 x 32 KiB), otherwise everything has been read
+		// before the first message passes: those cases use files 40 times larger
+		bigSc := sc
+		bigSc.Size *= 40
+		bnc, bns, bmsg := vfDryRun(bigSc)
+		if bmsg != "" {
+			c.violation("dryrun", bigSc, bmsg)
+			t.Fatalf("%s", bmsg)
+		}
 		for _, fault := range faults {
+			useSc, unc, uns := sc, nc, ns
+			if strings.HasPrefix(fault, "source_") {
+				useSc, unc, uns = bigSc, bnc, bns
+			}
 			for _, dir := range []string{"c2s", "s2c"} {
-				n := nc
+				n := unc
 				if dir == "s2c" {
-					n = ns
+					n = uns
 				}
 				for k := 1; k < n; k++ { // k = 0 is the ACT line / the trigger line: faults start after the handshake has begun
 					if dir == "s2c" && k == 1 && stride > 1 {
 						continue // losing the CFG line leaves the client on its built-in 20 s: thorough tier only
 					}
+					if strings.HasPrefix(fault, "source_") && k > 40 && k%5 != 0 {
+						continue // a long data phase: every fifth message is enough
+					}
 					for _, before := range []bool{true, false} {
-						h := vfPointHash(sc.Name, fault, dir, k, before)
+						h := vfPointHash(useSc.Name, fault, dir, k, before)
 						if int(h%uint64(shards)) != shard || (int(h/uint64(shards)%1000003)+seed)%stride != 0 {
 							continue
 						}
-						cs := vfC11Case{Scen: sc, Ev: vfEvent{Dir: dir, K: k, Before: before}, Fault: fault}
+						cs := vfC11Case{Scen: useSc, Ev: vfEvent{Dir: dir, K: k, Before: before}, Fault: fault}
 						if !vfC11One(t, c, cs) {
 							return
 						}
